@@ -1610,3 +1610,63 @@ func applyVerbatimRule(w *World, r *Report, e *Engine, rule string) {
 	}
 	r.floor(rule, "calls of Go function values in Apply", n, 2)
 }
+
+// readStringTotalRule: read-string is the reader applied to a text. Which texts are read is the reader's business:
+// the builtin hands its argument over without looking at what the text says (a test of the text's first
+// characters - the keyword marker, say - refuses texts the printer writes for values the reader would read back).
+func readStringTotalRule(w *World, r *Report, rule string) {
+	r.rule(rule, "the read-string builtin (and the functions of its package it is built from) passes its argument to no function but the reader's entry point: no predicate or string function is asked about the text before it is read, so every text the printer can write is read")
+	fn := w.builtin("read-string")
+	rs := w.Fn("reader", "Read_str")
+	if fn == nil || rs == nil {
+		r.undecided(rule, nil, "read-string builtin / Read_str", token.NoPos, "function no longer resolves")
+		return
+	}
+	n := 0
+	for _, f := range w.withPkgHelpersOf(fn) {
+		if f == nil || len(f.Params) == 0 {
+			continue
+		}
+		fromArg := func(v ssa.Value) bool {
+			for depth := 0; depth < 5; depth++ {
+				switch x := v.(type) {
+				case *ssa.Parameter:
+					return x.Parent() == f && isMalType(x.Type())
+				case *ssa.TypeAssert:
+					v = x.X
+				case *ssa.Extract:
+					v = x.Tuple
+				case *ssa.MakeInterface:
+					v = x.X
+				case *ssa.ChangeInterface:
+					v = x.X
+				default:
+					return false
+				}
+			}
+			return false
+		}
+		for _, b := range f.Blocks {
+			for _, in := range b.Instrs {
+				c, ok := in.(*ssa.Call)
+				if !ok || c.Call.StaticCallee() == nil {
+					continue
+				}
+				uses := false
+				for _, a := range c.Call.Args {
+					if fromArg(a) {
+						uses = true
+					}
+				}
+				if !uses {
+					continue
+				}
+				n++
+				callee := c.Call.StaticCallee()
+				okCall := callee == rs || (callee.Pkg == f.Pkg && callee != f && len(callee.Blocks) > 0) || fnPkgPath(callee) == "fmt" || fnPkgPath(callee) == modPath+"/printer"
+				r.check(okCall, rule, f, "function the text is handed to", c.Pos(), "the reader's entry point (or a function of the builtin's own package on the way there)", "the builtin asks "+callee.Name()+" about its argument before reading it: texts are refused by a test of their content that is not the reader's (a printed symbol or keyword text that starts with the keyword marker is no string for String_Q)")
+			}
+		}
+	}
+	r.floor(rule, "calls that are handed the text", n, 1)
+}
